@@ -224,6 +224,22 @@ pub fn run(ctx: &mut Ctx, replay: Option<&[String]>) {
             ctx.emit(&format!("c15 dil {} {} {}", c, bw as u8, int_list(&xs)), &o, true, &["deinterleave-random", tyn, kind]);
         }
     }
+    // (b'') many columns: 255 ... 1030 (the column count must not be kept in an 8-bit field), a few rows
+    for _ in 0..ctx.scale(24, 400) {
+        let c = *rng.pick(&[255usize, 256, 257, 258, 300, 511, 512, 513, 768, 1000, 1024, 1030]);
+        let r = rng.range(1, 3);
+        let bw = rng.chance(1, 2);
+        let extra = if rng.chance(1, 6) { rng.range(1, 7) } else { 0 };
+        let xs = values(&mut rng, c * r + extra, Ty::I64, true);
+        let kind = if xs.len() % c != 0 { "length-indivisible" } else { "length-divisible" };
+        if rng.chance(1, 2) {
+            let o = interleave(c, bw, &xs, Ty::I64);
+            ctx.emit(&format!("c15 il {} {} {}", c, bw as u8, int_list(&xs)), &o, true, &["interleave-255-or-more-columns", kind]);
+        } else {
+            let o = deinterleave(c, bw, &xs, Ty::I64);
+            ctx.emit(&format!("c15 dil {} {} {}", c, bw as u8, int_list(&xs)), &o, true, &["deinterleave-255-or-more-columns", kind]);
+        }
+    }
     // (b') one interleaver object used for several block lengths in a row ("for every block length divisible by the column count")
     for _ in 0..ctx.scale(300, 30000) {
         let c = rng.range(1, 12);
